@@ -11,6 +11,7 @@ spec keys
       state: "ravel"  (mixed-radix box starting at 0: the all-zero padding vector IS state 0)
              "offset" (box starting at 1 in every coordinate, clipping index: padding vector is NOT a state)
              "idcol"  (id+3 in the first column plus junk columns, clipping index: padding vector is NOT a state)
+             "halfstep" (non-integer 1-vectors 0.25, 0.75, ...: float state space; padding vector is NOT a state)
       sdims: box widths for ravel/offset (product == nS); for idcol the number of junk columns + 1
       adims: action box widths (product == nA), dimension 1..2
       edims: event box widths (product == nE), dimension 1..3
@@ -34,6 +35,9 @@ def state_vectors(spec) -> np.ndarray:
         return _unravel(nS, enc["sdims"])
     if kind == "offset":
         return _unravel(nS, enc["sdims"]) + 1
+    if kind == "halfstep":
+        # non-integer state vectors: state i is the 1-vector [0.5 * i + 0.25] (float64)
+        return (np.arange(nS, dtype=np.float64) * 0.5 + 0.25).reshape(nS, 1)
     if kind == "idcol":
         ncol = int(enc["sdims"][0])
         cols = [np.arange(nS, dtype=np.int32) + 3]
@@ -79,6 +83,8 @@ def make_problem(spec):
             return jnp.ravel_multi_index(tuple(state), sdims, mode="clip")
         if kind == "offset":
             return jnp.ravel_multi_index(tuple(state - 1), sdims, mode="clip")
+        if kind == "halfstep":
+            return jnp.clip(jnp.round((state[0] - 0.25) * 2).astype(jnp.int32), 0, nS - 1)
         return jnp.clip(state[0] - 3, 0, nS - 1)
 
     def a_index(action):
